@@ -550,8 +550,9 @@ def pat_defer(rnd, sid):
     for i, k in enumerate(kinds):
         d = {"s": i + 1, "kind": k}
         if k == "comp":
-            d["children"] = [{"interest": "r", "mode": r.choice(["level", "level", "oneshot", "edge"])}]
-            if r.random() < 0.3:
+            d["children"] = [{"interest": "r", "mode": r.choice(["level", "level", "oneshot", "edge"])}
+                             for _ in range(r.choice([1, 1, 2]))]
+            if r.random() < 0.45:
                 d["life"] = 1
         if k == "timer":
             d["held"] = 1
@@ -566,7 +567,7 @@ def pat_defer(rnd, sid):
             msg[0] += 1
             return [{"op": "send", "s": d["s"], "m": msg[0]}]
         if d["kind"] == "comp":
-            return [{"op": "wr", "s": d["s"], "c": 0}]
+            return [{"op": "wr", "s": d["s"], "c": r.randrange(len(d["children"]))}]
         return []
     steps = [{"op": "insert", "s": d["s"]} for d in srcs]
     tick = 0
@@ -585,7 +586,8 @@ def pat_defer(rnd, sid):
         for k in range(5):
             ops = []
             if d["kind"] == "comp":
-                ops.append({"op": "rd", "s": d["s"], "c": 0})
+                for c in range(len(d["children"])):
+                    ops.append({"op": "rd", "s": d["s"], "c": c})
             p = {"ops": ops}
             if d["s"] == 1 and k == 0:
                 ops.append({"op": r.choice(["disable", "update"]), "ts": 1})
@@ -685,6 +687,51 @@ def pat_timers(rnd, sid):
     return {"id": sid, "tick_us": 2000, "sources": srcs, "progs": progs, "steps": steps}
 
 
+def pat_idles(rnd, sid):
+    """Bursts of idle callbacks (sizes around the growth steps of the list's buffer), idles that insert / cancel idles,
+    handles cancelled or dropped, idles inserted from a source callback; several dispatches in a row."""
+    r = rnd
+    srcs = [{"s": 1, "kind": "ping"}]
+    steps = [{"op": "insert", "s": 1}]
+    progs = {}
+    n = [0]
+    pending = []
+
+    def new_idle(depth):
+        n[0] += 1
+        i = n[0]
+        ops = []
+        if depth < 2 and r.random() < (0.5 if depth == 0 else 0.3):
+            for _ in range(r.choice([1, 1, 2, 3])):
+                ops.append({"op": "insert_idle", "i": new_idle(depth + 1)})
+        if pending and r.random() < 0.15:
+            ops.append({"op": "cancel_idle", "i": r.choice(pending)})
+        progs["i%d" % i] = [{"ops": ops}]
+        return i
+    cbops = []
+    for rnd_i in range(r.choice([2, 3, 4])):
+        burst = r.choice([0, 1, 2, 4, 5, 5, 6, 8, 9, 9, 17])
+        for _ in range(burst):
+            i = new_idle(0)
+            pending.append(i)
+            steps.append({"op": "insert_idle", "i": i})
+        if pending and r.random() < 0.4:
+            steps.append({"op": r.choice(["cancel_idle", "drop_idle"]), "i": r.choice(pending)})
+        if r.random() < 0.4:
+            steps.append({"op": "ping", "s": 1})
+        steps.append({"op": "dispatch"})
+        pending.clear()
+    steps += [{"op": "dispatch"}, {"op": "dispatch"}]
+    pl = []
+    for k in range(4):
+        ops = []
+        if r.random() < 0.5:
+            ops.append({"op": "insert_idle", "i": new_idle(1)})
+        pl.append({"ops": ops})
+    progs["s1"] = pl
+    return {"id": sid, "tick_us": 2000, "sources": srcs, "progs": progs, "steps": steps}
+
+
 def gen(seed, n, classes=None):
     classes = classes or CLASSES
     out = []
@@ -698,6 +745,8 @@ def gen(seed, n, classes=None):
             out.append(pat_replace(rnd, "p%d_%s_%d" % (seed, cls, i), cls))
         elif 0.4 <= x < 0.55 and cls in ("post", "mix", "ready", "fds", "disable", "faults", "timers"):
             out.append(pat_defer(rnd, "d%d_%s_%d" % (seed, cls, i)))
+        elif 0.4 <= x < 0.7 and cls == "idle":
+            out.append(pat_idles(rnd, "i%d_%s_%d" % (seed, cls, i)))
         elif 0.55 <= x < 0.8 and cls == "timers":
             out.append(pat_timers(rnd, "t%d_%s_%d" % (seed, cls, i)))
         else:
